@@ -30,6 +30,7 @@ type env struct {
 	iterFrom    *ssa.BasicBlock // iteration-ensures: names resolve to values that dominate this back-edge source
 	iterLoop    *loopInfo       // iteration-ensures: the loop, for athead(x)
 	lenientLocals bool          // at-return: a local without a value on this path is an arbitrary value
+	cbApply     func(param string, args []tval) string // host postconditions: cb(f, args...) = what the literal passed for f returns on args
 }
 
 type specError string
@@ -607,6 +608,18 @@ func (en *env) sliceIdent(a, b string) string {
 }
 
 func (en *env) indexExpr(v *EIndex) tval {
+	// an element of an array that lives in memory (a struct field like tab.buckets): read the
+	// element's own cell instead of loading the array as a value and selecting from it
+	if _, isSel := v.X.(*ESelector); isSel {
+		if a, at, ok := en.tryAddrOf(v.X); ok && at != nil {
+			if arr, isArr := at.Underlying().(*types.Array); isArr {
+				if _, isBV := isByteArrayBV(at); !isBV && arr.Len() <= 64 {
+					i := en.eval(v.I)
+					return tval{term: en.e.loadValue(en.st, idxAddr(a, en.toIdx(i)), arr.Elem()), typ: arr.Elem()}
+				}
+			}
+		}
+	}
 	x := en.eval(v.X)
 	i := en.eval(v.I)
 	switch u := x.typ.Underlying().(type) {
@@ -948,6 +961,17 @@ func (en *env) modAddrs1(m Expr) []modAddr {
 			app("bvsub", app("s_cap", s.term), app("s_len", s.term)), app("bvsub", app("s_cap", s.term), app("s_len", s.term)))
 		return []modAddr{{region: reg, sort: en.e.sortOf(sl.Elem()), typ: sl.Elem()}}
 	}
+	if c, ok := m.(*ECall); ok && c.Fun == "backing" {
+		// backing(s): every cell of s's backing array that s can reach (len(s) elements and the
+		// spare capacity)
+		s := en.eval(c.Args[0])
+		sl, ok := s.typ.Underlying().(*types.Slice)
+		if !ok {
+			en.fail("backing() of %s", s.typ)
+		}
+		reg := fmt.Sprintf("(mkslice %s %s %s %s)", app("s_base", s.term), app("s_off", s.term), app("s_cap", s.term), app("s_cap", s.term))
+		return []modAddr{{region: reg, sort: en.e.sortOf(sl.Elem()), typ: sl.Elem()}}
+	}
 	if c, ok := m.(*ECall); ok && c.Fun == "elems" {
 		s := en.eval(c.Args[0])
 		sl, ok := s.typ.Underlying().(*types.Slice)
@@ -1171,6 +1195,56 @@ func (en *env) callExpr(v *ECall) tval {
 			en.fail("sameobj of %s, %s", x.typ, y.typ)
 		}
 		return tval{term: eq(x.term, y.term), typ: boolT}
+	case "cb":
+		// cb(f, a1, ...): in the postcondition of a host that takes a function parameter f - the
+		// value the function literal passed for f returns on these arguments, by the literal's
+		// own (verified) postcondition `result <==> E`
+		id, ok := v.Args[0].(*EIdent)
+		if !ok || en.cbApply == nil || len(v.Args) < 2 {
+			en.fail("cb(<function parameter>, args...) is only meaningful in a host's ensures")
+		}
+		var as []tval
+		for _, a := range v.Args[1:] {
+			as = append(as, en.eval(a))
+		}
+		return tval{term: en.cbApply(id.Name, as), typ: boolT}
+	case "defined":
+		// defined(x): in an at-return clause - the local variable x was assigned on the way to
+		// this return (a variable declared after an early return has no value there)
+		id, ok := v.Args[0].(*EIdent)
+		if !ok {
+			en.fail("defined(<local variable>)")
+		}
+		if en.fn != nil && en.fn == en.e.fn {
+			if _, ok := en.e.resolveSourceVar(id.Name, en.loop, en.st); ok {
+				return tval{term: "true", typ: boolT}
+			}
+			if sv, blk, ok := en.e.singleDefinition(id.Name); ok {
+				if r, has := en.e.reachAt[blk]; has {
+					if _, def := en.e.vals[sv]; def {
+						return tval{term: r, typ: boolT}
+					}
+				}
+			}
+		}
+		return tval{term: "false", typ: boolT}
+	case "isroot":
+		// isroot(x): the reference denotes a whole allocated object (the result of new / &T{}),
+		// not a field or element inside another object - the memory model is untyped, so
+		// "this *bucket is not a pointer into the Table" is stated with it
+		x := en.eval(v.Args[0])
+		if en.e.sortOf(x.typ).kind != skRef {
+			en.fail("isroot of %s", x.typ)
+		}
+		return tval{term: fmt.Sprintf("((_ is obj) %s)", x.term), typ: boolT}
+	case "entry":
+		// entry(e): e evaluated in the state at function entry (in an after-call clause old()
+		// is the state right before the call)
+		c := *en
+		c.st = en.e.entry
+		c.old = en.e.entry
+		c.inOld = true
+		return c.eval(v.Args[0])
 	case "soff":
 		x := en.eval(v.Args[0])
 		return tval{term: app("s_off", x.term), typ: types.Typ[types.Int]}
